@@ -477,15 +477,15 @@ func (x *Exec) convert(st *State, v *Val, from, to types.Type) *Val {
 // makeSlice allocates a zeroed backing array of cp elements.
 func (x *Exec) makeSlice(st *State, elem types.Type, ln, cp Term) Term {
 	es := x.sortOf(elem)
-	s := x.makeSliceRaw(st, es, ln, cp, true)
-	h := x.heap(st, es)
+	s := x.makeSliceRaw(st, elem, ln, cp, true)
+	h := x.heap(st, elem)
 	zero := x.zeroOf(elem)
 	arr := Term{fmt.Sprintf("((as const %s) %s)", ArraySort(SBV64, es), zero.S), ArraySort(SBV64, es)}
-	x.setHeap(st, es, Store(h, sBase(s), arr))
+	x.setHeap(st, elem, Store(h, sBase(s), arr))
 	return s
 }
 
-func (x *Exec) makeSliceRaw(st *State, es Sort, ln, cp Term, _ bool) Term {
+func (x *Exec) makeSliceRaw(st *State, es any, ln, cp Term, _ bool) Term {
 	a := x.newObject(st, "arr")
 	x.heap(st, es) // make sure the heap is known
 	return x.sc.Define("newslice", mkSlice(a, bv64(0), ln, cp))
@@ -546,10 +546,11 @@ func (x *Exec) sliceOp(fr *Frame, st *State, i *ssa.Slice) *Val {
 		loc := x.derefLoc(st, xv, u.Elem(), i.Pos(), "array slice")
 		av := x.load(st, loc)
 		es := x.sortOf(arr.Elem())
-		ns := x.makeSliceRaw(st, es, App(SBV64, "bvsub", hi, lo), App(SBV64, "bvsub", n, lo), false)
-		h := x.heap(st, es)
+		_ = es
+		ns := x.makeSliceRaw(st, arr.Elem(), App(SBV64, "bvsub", hi, lo), App(SBV64, "bvsub", n, lo), false)
+		h := x.heap(st, arr.Elem())
 		// backing array aliases the array object: approximate by equal contents at creation
-		x.setHeap(st, es, Store(h, sBase(ns), av))
+		x.setHeap(st, arr.Elem(), Store(h, sBase(ns), av))
 		x.assumeNote("slicing a fixed array yields a copy (aliasing with the array object not modelled)")
 		ns2 := mkSlice(sBase(ns), lo, App(SBV64, "bvsub", hi, lo), App(SBV64, "bvsub", n, lo))
 		return &Val{T: x.sc.Define("arrslice", ns2), Ty: i.Type()}
